@@ -45,7 +45,11 @@ def cases(draw):
         thr = draw(st.sampled_from(bounds))
     else:
         thr = draw(gg.thresholds())
-    return {"g": g, "cfg": cfg, "target": target, "thr": thr}
+    case = {"g": g, "cfg": cfg, "target": target, "thr": thr}
+    h = draw(gg.call_history(thr))
+    if h:
+        case["history"] = h
+    return case
 
 
 def strategy(tier):
@@ -58,7 +62,7 @@ selftest = c01.selftest
 def check(case):
     case = common.expanded(case)
     kw, triples = common.base_kwargs(case)
-    text, crash = sut.shex(kw, acceptance_threshold=case["thr"])
+    text, crash = sut.shex(kw, acceptance_threshold=case["thr"], history=case.get("history"))
     if crash is not None:
         return discard("crash:" + crash.bucket)
     cfg = case["cfg"]
@@ -79,6 +83,8 @@ def check(case):
     thr = case["thr"]
     finds = oracle.compare(cdoc, M, label_of, thr, cfg, expect_empty_shapes=keep_empty)
     labels = common.label_features(triples, sel, M)
+    if case.get("history"):
+        labels.add("later-call-on-the-same-shaper")
     # non-triviality
     nt = False
     for S in sel:
